@@ -14,6 +14,13 @@
   the connection queue are *not enabled* while the queue is full (`Out.blocked`, state unchanged): the
   real task is parked inside `tx.send(..).await` and the step happens when it is resumed.
 
+  Deliberately unspecified (neither C04 nor C06 decides it, and in the code it is a scheduling race
+  between the subscription task and the connection's shutdown): whether a closing notification that
+  becomes due while a STOPPING server is finishing the connection still reaches the peer.  The
+  machine sends it (`taskStep` before `connFinish`); the correspondence does not compare closing
+  frames that were queued in the very settling in which a stopping connection finished (driver
+  `settle`, harness `frames_part`) — the oracle still checks any such frame that does arrive.
+
   The subscriber table (`Subscribers`, one per subscription method, keyed by (connection id,
   subscription id)) is the field `inTable` of the subscription records; the permit is accounted in
   `Conn.permitsFree`; `pendingHeld` (the PendingSubscriptionSink is alive) is `phase = pending`.
